@@ -408,6 +408,11 @@ func runC01(r *Run) {
 		levels = append(levels, sample.vals...)
 		own := slog.VerifEntryOf(slog.New("c01"))
 		own.SetWriter(pool[1]).SetErrorWriter(pool[1])
+		if si%2 == 1 {
+			// ... and its own default logger: a sub-logger (an *Entry, where the factory default is the package's
+			// own wrapper type); the package-level functions take another branch for it
+			slog.SetDefault(slog.New("c01-parent").New("c01-default-entry"))
+		}
 		def := slog.VerifEntryOf(slog.Default())
 		def.SetWriter(pool[2]).SetErrorWriter(pool[2])
 		for _, L := range levels {
